@@ -317,3 +317,66 @@ class UuidV(_NativeOnly):
 
 
 CONTRACTS = [OptionalV, RequiredV, PropertyGroupV, ValueV, AtLeastOneV, TypeV, UuidV]
+
+
+class AssociationV(_NativeOnly):
+    """AssociationValidator: a value that names an entity or a property group (as an object or by
+    identifier) is accepted exactly when it belongs to the referenced parent -- a child of the parent
+    object (data, property groups) or, for a group or a workspace, anything below it; values that name
+    nothing (None, numbers, text) are not its business."""
+    target = "geoh5py/shared/validators.py::AssociationValidator.validate"
+    bounded_scope = "two objects with data and a property group each inside a group; value in {None, number, text, own / foreign data, own / foreign property group, own / foreign object; each as entity and as identifier} x valid in {None, parent object, parent group, workspace} (exhaustive)"
+
+    VALUES = ("none", "number", "text", "own-data", "foreign-data", "own-pg", "foreign-pg", "own-object", "foreign-object", "unknown-uid")
+    VALIDS = ("none", "object", "group", "workspace")
+
+    def native_cases(self, tier, rng):
+        for v in self.VALUES:
+            for form in ("entity", "uid"):
+                for valid in self.VALIDS:
+                    yield {"value": v, "form": form, "valid": valid}
+
+    def native_check(self, case):
+        import numpy as np
+
+        from geoh5py.groups import ContainerGroup
+        from geoh5py.objects import Points
+        from geoh5py.shared.exceptions import AssociationValidationError
+        from geoh5py.shared.validators import AssociationValidator
+        from geoh5py.workspace import Workspace
+
+        with Workspace() as ws:
+            g = ContainerGroup.create(ws, name="g")
+            a = Points.create(ws, name="a", vertices=np.zeros((3, 3)), parent=g)
+            b = Points.create(ws, name="b", vertices=np.ones((3, 3)))  # outside the group
+            da = a.add_data({"da": {"values": np.arange(3.0)}})
+            db = b.add_data({"db": {"values": np.arange(3.0)}})
+            pga = a.add_data_to_group(da, "pa")
+            pgb = b.add_data_to_group(db, "pb")
+            ent = {"none": None, "number": 3, "text": "abc", "own-data": da, "foreign-data": db, "own-pg": pga, "foreign-pg": pgb, "own-object": a, "foreign-object": b, "unknown-uid": uuid.uuid4()}[case["value"]]
+            value = getattr(ent, "uid", ent) if case["form"] == "uid" else ent
+            valid = {"none": None, "object": a, "group": g, "workspace": ws}[case["valid"]]
+            names_something = case["value"] not in ("none", "number", "text")
+            if not names_something or valid is None:
+                want = True
+            elif case["value"] == "unknown-uid":
+                want = False
+            elif case["valid"] == "workspace":
+                want = True
+            elif case["valid"] == "object":
+                want = case["value"] in ("own-data", "own-pg")
+            else:  # the group: everything below it
+                want = case["value"] in ("own-data", "own-pg", "own-object")
+            try:
+                AssociationValidator.validate("p", value, valid)
+                got = True
+            except AssociationValidationError:
+                got = False
+            except Exception as exc:
+                return f"AssociationValidator raised {type(exc).__name__}: {exc} for {case}"
+            if got != want:
+                return f"{case['value']} given as {case['form']} with parent {case['valid']}: {'accepted' if got else 'rejected'}, expected {'accepted' if want else 'rejected'} ({case})"
+        return None
+
+
+CONTRACTS = CONTRACTS + [AssociationV]
